@@ -4,6 +4,7 @@ import torch
 
 from .. import dense as dn
 from .. import walk
+from .. import gens
 from ..ctx import Raised
 
 PROP = 'C06'
@@ -19,7 +20,7 @@ ASSUMPTIONS = ['comparison is bit-exact (torch.equal, NaN-aware): no tolerance, 
 REQUIRED_REACH = ['_tt_base:TT.__truediv__', '_dmrg:dmrg_matvec_python', '_dmrg:dmrg_hadamard_python', '_amen:amen_mv', '_amen:amen_mm', 'solvers:amen_solve', '_division:amen_divide',
                   'interpolate:function_interpolate', 'interpolate:dmrg_cross', '_tt_base:TT.round', '_extras:reshape', '_extras:permute', 'manifold:riemannian_projection',
                   'manifold:riemannian_gradient', '_extras:elementwise_divide']
-REQUIRED_COUNTS = {'same_call_again': 100, 'imm_result_identity_checks': 500, 'imm_operand_checks': 2000, 'imm_stability_checks': 5000, 'op:fast_matvec(initial)': 3, 'op:dmrg_hadamard(z0)': 3, 'op:amen_mv(x0)': 3, 'op:amen_mm(X0)': 3,
+REQUIRED_COUNTS = {'mixed_dtype_call_returned': 30, 'same_call_again': 100, 'imm_result_identity_checks': 500, 'imm_operand_checks': 2000, 'imm_stability_checks': 5000, 'op:fast_matvec(initial)': 3, 'op:dmrg_hadamard(z0)': 3, 'op:amen_mv(x0)': 3, 'op:amen_mm(X0)': 3,
                    'op:amen_solve(x0)': 3, 'op:elementwise_divide(start)': 1, 'op:function_interpolate(start)': 1, 'op:dmrg_cross(start)': 1, 'op:TT.scalar(x/s)': 3}
 MIN_NONTRIVIAL = {'quick': 200, 'thorough': 2000}
 CASE_TIMEOUT = {'quick': 240, 'thorough': 600}
@@ -36,10 +37,42 @@ def cases(tier, seed):
                 cs.append({'gen': 'table', 'op': name, 'view0': v, 'reps': 3, 'dtype': 'f64' if rep % 3 else ['c128', 'f32', 'f64'][(v + rep) % 3]})
     for i in range(100 if not T else 1500):
         cs.append({'gen': 'walk', 'steps': rng.choice((30, 60, 100)) if not T else rng.choice((30, 60, 120, 200)), 'dtype': ['f64', 'f64', 'c128', 'f32'][i % 4], 'views': i % 2 == 0})
+    # operands of DIFFERENT dtypes in one call (the library accepts f32 with f64 and real with complex in +, -, *, @, kron, dot ...): neither operand may be converted in place
+    for i in range(160 if not T else 1600):
+        cs.append({'gen': 'mixdtype', 'op': ['add', 'sub', 'mul', 'matmul_Ax', 'matmul_AB', 'kron', 'dot', 'hadamard_ttm', 'add_ttm', 'cat'][i % 10],
+                   'dts': [('f64', 'c128'), ('c128', 'f64'), ('f32', 'f64'), ('f64', 'f32'), ('f32', 'c128'), ('c64', 'f64')][(i // 10) % 6], 'N': [rng.choice((1, 2, 3)) for _ in range(rng.randint(1, 3))]})
     return cs
 
 
+def run_mixdtype(case, ctx):
+    import torchtt
+    g = gens.tgen(case['seed'])
+    rr = random.Random(case['seed'])
+    N = case['N']
+    d = len(N)
+    dts = [{'f64': torch.float64, 'f32': torch.float32, 'c128': torch.complex128, 'c64': torch.complex64}[k] for k in case['dts']]
+    R = lambda: [1] + [rr.randint(1, 3) for _ in range(d - 1)] + [1]
+    op = case['op']
+    ttm = op in ('matmul_AB', 'hadamard_ttm', 'add_ttm')
+    M = [rr.choice((1, 2)) for _ in N]
+    a = gens.make_tt(N, R(), dts[0], 'gauss', g, M=M if (ttm or op == 'matmul_Ax') else None)
+    b = gens.make_tt(N if op != 'matmul_AB' else M, R(), dts[1], 'gauss', g, M=(N if op == 'matmul_AB' else M) if ttm else None)
+    f = {'add': lambda p, q: p + q, 'sub': lambda p, q: p - q, 'mul': lambda p, q: p * q, 'matmul_Ax': lambda p, q: p @ q, 'matmul_AB': lambda p, q: q @ p,
+         'kron': lambda p, q: torchtt.kron(p, q), 'dot': lambda p, q: torchtt.dot(p, q), 'hadamard_ttm': lambda p, q: p * q, 'add_ttm': lambda p, q: p + q,
+         'cat': lambda p, q: torchtt.cat((p, q), 0)}[op]
+    ctx.count('mixed_dtype_calls')
+    r = ctx.lib('mixed-dtype:' + op, f, a, b)           # the IMM monitor compares both operands (dtype, data, metadata) around the call
+    if isinstance(r, Raised):
+        ctx.count('mixed_dtype_call_raised')
+    else:
+        ctx.count('mixed_dtype_call_returned')
+    from ..hooks import signature
+    ctx.nontrivial(('mixdtype', op, case['dts'], signature(a), signature(b)))
+
+
 def run_case(case, ctx):
+    if case['gen'] == 'mixdtype':
+        return run_mixdtype(case, ctx)
     dt = dn.dtype_of(case['dtype'])
     if case['gen'] == 'walk':
         w = walk.Walker(ctx, case['seed'], dt, views=case['views'])
